@@ -159,8 +159,11 @@ from .c20_allow import DENY_CONFIG, DENY_KINDS, DENY_DTYPES, DENY_CAST_INTO  # n
 
 def active_configs():
     out = []
+    only = [x for x in os.environ.get("VERIF_C20_CONFIGS", "").split(",") if x]
     for c in configs():
         if c.name in DENY_CONFIG:
+            continue
+        if only and c.name not in only:
             continue
         c.kinds_mask &= ~DENY_KINDS.get(c.name, 0)
         c.kinds_mask &= ~DENY_KINDS.get("*" + c.cls, 0)
